@@ -26,6 +26,7 @@ RULE = (
     "pair maps to) making it canonical; unknown old prefixes and new prefixes owned by other records being skipped; "
     "untouched records identical. key = shape of the remapping (per pair: key class -> value class, plus chain/swap/self "
     "markers) x outcome; non-trivial = some key is also a value, or a key or value is a synonym."
+    ' The at-scale case adds five remappings of renames across the sort order mixed with clashing pairs (round 21).'
 )
 ASSUMPTIONS = ["CURIE remapping is delimiter-free: delimiters ':', '/', '::', '_' and prefixes containing another converter's delimiter are drawn", "two pairs onto one unknown new prefix: only one of them can win; the oracle does not demand both (DESIGN 7.3)"]
 
